@@ -176,6 +176,14 @@ pub fn run(out: &mut dyn Write, rng: &mut Rng, n: usize, mutation_seeds: usize) 
             }
         }
     }
+    // stream 1f: very long digit runs in the clock fields (also cut off in the middle of the run)
+    for nd in [5usize, 9, 10, 100, 255, 256, 259, 260, 261, 300, 516, 520, 1030] {
+        let run: String = "7".repeat(nd);
+        for s in [format!("4k3/8/8/8/8/8/8/4K3 w - - {run} 1"), format!("4k3/8/8/8/8/8/8/4K3 w - - 0 {run}"), format!("4k3/8/8/8/8/8/8/4K3 w - - {run}"),
+                  format!("4k3/8/8/8/8/8/8/4K3 w - - 1 0{run}")] {
+            parse_line(out, s.as_bytes(), &mut hist);
+        }
+    }
     // stream 1e: en-passant markers with every kind of occupant on the victim square and on the marker square, capturers on both sides
     for (turn, vr, mr, own_p, opp_p) in [("w", 4usize, 5usize, 'P', 'p'), ("b", 3, 2, 'p', 'P')] {
         for f in 0..8usize {
